@@ -50,6 +50,9 @@ type c18Scenario struct {
 	SetUnbal  bool   `json:"unbalancedTransactions"`
 	Postings  []int  `json:"account_indexes"` // accounts used by the postings of transaction 1
 	CommShape int    `json:"commodity_shape"`
+	// Before: another document was analysed first whose own include tree (a file
+	// outside every other tree) declares the accounts and commodities this one uses
+	Before bool `json:"other_document_analysed_first"`
 }
 
 // commodity shapes of transaction 2: list of (amount commodity, cost commodity, assertion commodity) per posting
@@ -61,6 +64,8 @@ var c18CommShapes = [][][3]string{
 	{{"USD", "CHF", ""}, {"EUR", "", "CHF"}},                  // two undeclared symbols
 	{{"EUR", "", ""}, {"", "", ""}},                           // amount-less second posting
 	{{"USD", "EUR", "USD"}, {"CHF", "", ""}, {"EUR", "", ""}}, // three postings
+	{{"EUR", "", ""}, {"", "", "CHF"}},                        // undeclared only in the assertion of an amount-less posting
+	{{"USD", "", ""}, {"", "", "USD"}},                        // the same undeclared symbol as amount and in an amount-less assertion: once
 }
 
 type c18Expect struct {
@@ -142,6 +147,8 @@ func (sc c18Scenario) files() (cur string, files map[string]string, expect []c18
 			if sh[2] != "" {
 				l += " = 5 " + sh[2]
 			}
+		} else if sh[2] != "" {
+			l += "  = 5 " + sh[2]
 		}
 		b.WriteString(l + "\n")
 		for _, cm := range sh {
@@ -167,7 +174,11 @@ func (sc c18Scenario) features() string {
 	if sc.Root {
 		root = "workspace root"
 	}
-	return fmt.Sprintf("accounts declared in %s, commodities declared in %s, %s", sc.AccDecl, sc.CommDecl, root)
+	before := ""
+	if sc.Before {
+		before = ", after another document whose include tree declares the names"
+	}
+	return fmt.Sprintf("accounts declared in %s, commodities declared in %s, %s%s", sc.AccDecl, sc.CommDecl, root, before)
 }
 
 func c18Run(c *core.Ctx, dir string, sc c18Scenario) {
@@ -183,6 +194,19 @@ func c18Run(c *core.Ctx, dir string, sc c18Scenario) {
 	s.Initialize(wire.InitOpts{Root: root, Options: fmt.Sprintf(`{"diagnostics":{"undeclaredAccounts":%v,"undeclaredCommodities":%v,"unbalancedTransactions":%v}}`, sc.SetAcc, sc.SetComm, sc.SetUnbal)})
 	s.Initialized()
 	uri := wire.URI(filepath.Join(dir, "cur.journal"))
+	if sc.Before {
+		var ext strings.Builder
+		for _, a := range c18Accounts {
+			ext.WriteString("account " + a.Name + "\n")
+		}
+		for _, cm := range []string{"EUR", "USD", "CHF"} {
+			ext.WriteString("commodity 1.000,00 " + cm + "\n")
+		}
+		other := "include ext.journal\n\n2001-04-01 other\n    zzz:cash  1 USD\n    assetsx:q  -1 USD\n"
+		writeFiles(dir, map[string]string{"ext.journal": ext.String(), "other.journal": other})
+		ou := wire.URI(filepath.Join(dir, "other.journal"))
+		s.DidOpen(ou, other)
+	}
 	s.DidOpen(uri, cur)
 	raw := s.Client.Last(uri)
 	c.Res.Evaluations++
@@ -314,7 +338,7 @@ func checkC18(c *core.Ctx) {
 		all[i] = i
 	}
 	postingSets = append(postingSets, all, []int{13, 13}, []int{5})
-	c.Bound("scenarios", fmt.Sprintf("declarations of accounts x commodities in {current, included, sibling workspace file, nowhere} (16) x 8 settings combinations x workspace root on/off x %d posting sets over %d account classes x %d commodity shapes (amount / cost / assertion position, once and twice)", len(postingSets), n, len(c18CommShapes)))
+	c.Bound("scenarios", fmt.Sprintf("declarations of accounts x commodities in {current, included, sibling workspace file, nowhere} (16) x 8 settings combinations x workspace root on/off x %d posting sets over %d account classes x %d commodity shapes (amount / cost / assertion position, amount-less postings with assertions, once and twice); with all settings on also after another document (own include tree declaring everything) was analysed first", len(postingSets), n, len(c18CommShapes)))
 	sampled := 0
 	for _, ad := range wheres {
 		for _, cd := range wheres {
@@ -324,7 +348,7 @@ func checkC18(c *core.Ctx) {
 						// commodity shapes rotate with the posting set; the full product on the first sets
 						shapes := []int{pi % len(c18CommShapes)}
 						if pi < 3 {
-							shapes = []int{0, 1, 2, 3, 4, 5, 6}
+							shapes = []int{0, 1, 2, 3, 4, 5, 6, 7, 8}
 						}
 						for _, sh := range shapes {
 							if !c.Mine() {
@@ -332,6 +356,11 @@ func checkC18(c *core.Ctx) {
 							}
 							sc := c18Scenario{AccDecl: ad, CommDecl: cd, Root: root, SetAcc: mask&1 != 0, SetComm: mask&2 != 0, SetUnbal: mask&4 != 0, Postings: ps, CommShape: sh}
 							c18Run(c, dir, sc)
+							if mask == 7 || c.Thorough() {
+								// the same scenario in a server that analysed another document first
+								sc.Before = true
+								c18Run(c, dir, sc)
+							}
 							if sampled < 2 && ad == "inc" && cd == "sib" && root && mask == 7 {
 								sampled++
 								cur, _, exp := sc.files()
